@@ -12,7 +12,7 @@ set_option linter.unusedSimpArgs false
 set_option linter.unusedVariables false
 
 namespace OFV.C13
-open OFV.Model.C13 OFV.Spec.C13 OFV.Model.C13.Lattice
+open OFV.Model.C13 OFV.Spec.C13 OFV.Model.C13.Lattice List
 
 theorem div_of {x r c : Nat} (hc : c < x) : (x * r + c) / x = r := by
   have hx : 0 < x := by omega
@@ -621,5 +621,47 @@ theorem neighbors_norm_nodup (l : Lattice) (hx : 0 < l.x) : ((l.neighbors false)
   obtain ⟨r, c, hc, _, h⟩ := mem_horizontal_norm.1 ha
   obtain ⟨r', c', hc', _, h'⟩ := (mem_vertical_norm hx).1 hb
   exact right_ne_bottom hc hc' h h'
+
+theorem flatMap_emit_perm {α : Type} (l : List α) (i j : α → Nat) :
+    (l.flatMap fun a => emit true (i a) (j a)) ~
+      (l.flatMap fun a => emit false (i a) (j a)) ++ (l.flatMap fun a => emit false (i a) (j a)).map Prod.swap := by
+  have h1 : (l.flatMap fun a => emit false (i a) (j a)).map Prod.swap = l.flatMap fun a => [(j a, i a)] := by
+    simp [List.map_flatMap, emit]
+  rw [h1]
+  have := (List.flatMap_append_perm l (fun a => [(i a, j a)]) (fun a => [(j a, i a)])).symm
+  simpa [emit] using this
+
+/-- a doubly nested ordered enumeration is the unordered one followed by its mirror image -/
+theorem flatMap2_emit_perm {α β : Type} (l1 : List α) (l2 : α → List β) (i j : α → β → Nat) :
+    (l1.flatMap fun a => (l2 a).flatMap fun b => emit true (i a b) (j a b)) ~
+      (l1.flatMap fun a => (l2 a).flatMap fun b => emit false (i a b) (j a b)) ++
+      (l1.flatMap fun a => (l2 a).flatMap fun b => emit false (i a b) (j a b)).map Prod.swap := by
+  have step : (l1.flatMap fun a => (l2 a).flatMap fun b => emit true (i a b) (j a b)) ~
+      l1.flatMap fun a => ((l2 a).flatMap fun b => emit false (i a b) (j a b)) ++
+        ((l2 a).flatMap fun b => emit false (i a b) (j a b)).map Prod.swap :=
+    List.Perm.flatMap_left _ (fun a _ => flatMap_emit_perm (l2 a) (i a) (j a))
+  refine step.trans ?_
+  refine (List.flatMap_append_perm l1 _ _).symm.trans ?_
+  rw [List.map_flatMap]
+
+theorem horizontal_ordered_perm (l : Lattice) :
+    l.horizontalNeighbors true ~ l.horizontalNeighbors false ++ (l.horizontalNeighbors false).map Prod.swap :=
+  flatMap2_emit_perm _ _ _ _
+
+theorem vertical_ordered_perm (l : Lattice) :
+    l.verticalNeighbors true ~ l.verticalNeighbors false ++ (l.verticalNeighbors false).map Prod.swap :=
+  flatMap2_emit_perm _ _ _ _
+
+theorem neighbors_ordered_perm' (l : Lattice) :
+    l.neighbors true ~ l.neighbors false ++ (l.neighbors false).map Prod.swap := by
+  unfold neighbors
+  rw [List.map_append]
+  have h := (horizontal_ordered_perm l).append (vertical_ordered_perm l)
+  refine h.trans ?_
+  -- (H ++ Hs) ++ (V ++ Vs) ~ (H ++ V) ++ (Hs ++ Vs)
+  rw [List.append_assoc, List.append_assoc]
+  refine List.Perm.append_left _ ?_
+  rw [← List.append_assoc, ← List.append_assoc]
+  exact List.perm_append_comm.append_right _
 
 end OFV.C13
